@@ -965,8 +965,29 @@ def own_log(db, rule):
                     n += 1
                     inst = '%s::%s:%s' % (cls.split('::')[-1], f.name.split('::')[-1], c['cls'].split('::')[-1])
                     shares = [x for a in c.get('args', []) for x in f.walk(f.stmts[a]) if x['k'] == 'MemberExpr' and x.get('member') == 'reporter']
+                    # a collecting reporter: the nested errors are gathered in a local and handed on to the reporter of this object afterwards
+                    gathered = set()
+                    for a in c.get('args', []):
+                        for lam in f.walk(f.stmts[a]):
+                            if lam['k'] == 'LambdaExpr':
+                                gathered |= {x.get('name') for x in f.walk(lam) if x['k'] == 'DeclRefExpr' and x.get('dk') in ('var', 'local') and x.get('name')}
+                    tainted = set(gathered)
+                    for lp in f.walk():
+                        if lp['k'] == 'CXXForRangeStmt' and any(x.get('name') in gathered for x in f.walk(f.stmts[lp['range']]) if x['k'] == 'DeclRefExpr'):
+                            tainted |= {d['name'] for d in f.stmts[lp['loopvar']].get('decls', [])}
+                    relayed = None
+                    for call in f.calls():
+                        if any(a_['id'] == call['id'] for a in c.get('args', []) for a_ in f.walk(f.stmts[a])):
+                            continue
+                        callee_side = [x for a in call.get('args', [])[:1] for x in f.walk(f.stmts[a]) if x['k'] == 'MemberExpr' and x.get('member') == 'reporter'] if call['k'] == 'CXXOperatorCallExpr' and call.get('op') == '()' else []
+                        logs = callee_side or (call.get('cs') or '').split('::')[-1] in ('OnError', 'LogError')
+                        if logs and any(x.get('name') in tainted for a in call.get('args', []) for x in f.walk(f.stmts[a]) if x['k'] == 'DeclRefExpr'):
+                            relayed = call
+                            break
                     if shares:
                         rule.violation(inst, f.loc(c), 'the nested %s is given the reporter of this object: errors found in the other text are logged with positions that do not lie in the input' % c['cls'].split('::')[-1])
+                    elif relayed is not None:
+                        rule.violation(inst, f.loc(relayed), 'the errors of the nested %s are gathered (%s) and then handed to the reporter of this object (`%s`): they carry positions in the other text, which do not lie in the input' % (c['cls'].split('::')[-1], ', '.join(sorted(gathered)), (relayed.get('txt') or '')[:50]))
                     else:
                         rule.ok(inst, 'nested analyser created without the reporter of the caller', f.loc(c))
     return n
